@@ -196,9 +196,19 @@ let mon_c01 (case : string list) (result : string) : string =
 (* C02: chk_C02 (extracted) on the implementation's packets; the crate decoder's reading of
    each packet against the reference parser's *)
 
+(* names of a reference parse that the decoder refuses because they could not be encoded
+   again (Wire.name_fits on the dotted presentation): outside the decoder's vocabulary *)
+let ref_names_fit (rm : ref_msg) : bool =
+  let fits ls = name_fits (dotted ls) in
+  let rd_ok r = match r.fr_data with FName ls -> fits ls | FSrv (_, _, _, ls) -> fits ls | FRaw _ -> true in
+  let rr_ok r = fits r.fr_name && rd_ok r in
+  List.for_all (fun q -> fits q.fq_name) rm.fm_questions
+  && List.for_all rr_ok rm.fm_answers && List.for_all rr_ok rm.fm_authorities && List.for_all rr_ok rm.fm_additionals
+
 let expected_decode (p : n list) : string option =
   match ref_parse p with
   | None -> None
+  | Some rm when not (ref_names_fit rm) -> None
   | Some rm ->
     let resp = N.eqb (N.coq_land rm.fm_flags (n_of_int 32768)) (n_of_int 32768) in
     (match opt_rrs resp rm.fm_answers, opt_rrs resp rm.fm_authorities, opt_rrs resp rm.fm_additionals with
